@@ -433,6 +433,8 @@ def coverage_check(cname, c, seed):
                 if cnt == "-" or ln == "0":
                     continue
                 total += 1
+                if cnt == "=====" and text.strip() in ("}", "};"):
+                    continue    # compiler-generated unwinding clean-up at a closing brace (e.g. bad_alloc paths)
                 if cnt in ("#####", "=====") or cnt.rstrip("*") == "0":
                     if any(a.search(text) for a in allow):
                         continue
